@@ -642,6 +642,9 @@ func (r *runner) replayFindings() {
 }
 
 func run(c *hx.Ctx) error {
+	// proto.NewRand(seed) starts seed k at the state seed 1 reaches after k-1 draws: the streams
+	// of different seeds are shifts of one another. Re-key from the first output.
+	c.R = proto.NewRand(c.R.U64())
 	res := c.Res
 	res.Rule = "trees parsed (through the verif hook on compiler.ParseProgram / ParseTemplate) from the corpus /repo/test/compare/testdata (every .go file and .dir program, every template) and from grammar-generated programs and template file systems (extends/import/render, macros, using, raw, URLs), plus synthetic nodes of every kind (all children set / random children nil) for the model ties only; a case is one tree, distinct by source, non-trivial when the tree has at least 8 nodes"
 	r := &runner{c: c, neverNil: map[string]map[string]bool{}, kindsSeen: map[string]int{}, reported: map[string]int{},
